@@ -14,6 +14,7 @@ cp /repo/go.mod /repo/go.sum /tmp/seedmod-$$.d/ 2>/dev/null || { mkdir -p /tmp/s
 MF="-modfile=/tmp/seedmod-$$.d/go.mod"
 PLACE=$(python3 -c "import json;print(json.load(open('$SRC/meta.json')).get('demo_placement','').strip('/'))")
 DEMO=$(ls $SRC/*_test.go 2>/dev/null | head -1)
+RACE=$(python3 -c "import json;print('-race' if '-race' in json.load(open('$SRC/meta.json')).get('demo_cmd','') else '')")
 res() { echo "SEEDCHECK $NAME: $*"; }
 cd $WT
 git apply $SRC/patch.diff || { res "patch does not apply"; exit 2; }
@@ -25,9 +26,9 @@ D_WITH=skip; D_WITHOUT=skip
 if [ -n "$DEMO" ] && [ -n "$PLACE" ]; then
   cp $DEMO $WT/$PLACE/zz_demo_test.go
   RUNPAT=$(grep -o 'func Test[A-Za-z0-9_]*' $DEMO | sed 's/func //' | paste -sd'|')
-  if go test $MF -vet=off -count=1 -run "^($RUNPAT)\$" ./$PLACE >/tmp/seedcheck-$$.log 2>&1; then D_WITH=pass; else D_WITH=fail; fi
+  if go test $MF $RACE -vet=off -count=1 -run "^($RUNPAT)\$" ./$PLACE >/tmp/seedcheck-$$.log 2>&1; then D_WITH=pass; else D_WITH=fail; fi
   git apply -R $SRC/patch.diff
-  if go test $MF -vet=off -count=1 -run "^($RUNPAT)\$" ./$PLACE >/tmp/seedcheck-$$.log 2>&1; then D_WITHOUT=pass; else D_WITHOUT=fail; fi
+  if go test $MF $RACE -vet=off -count=1 -run "^($RUNPAT)\$" ./$PLACE >/tmp/seedcheck-$$.log 2>&1; then D_WITHOUT=pass; else D_WITHOUT=fail; fi
 fi
 res "tests_pass_with_patch=$T_OK demo_with_patch=$D_WITH demo_without_patch=$D_WITHOUT"
 [ "$D_WITH" = fail ] && [ "$D_WITHOUT" = pass ] || { res "demonstration not confirmed"; exit 2; }
